@@ -6,7 +6,7 @@ patch=$1; shift
 export GOFLAGS=-mod=mod GOPROXY=off GOSUMDB=off GOTOOLCHAIN=local
 wt=$(mktemp -d /tmp/seedrun-XXXXXX)
 rmdir "$wt"
-git -C /repo worktree add -q --detach "$wt" HEAD || exit 2
+git -C /repo worktree add -q --detach "$wt" ${BASE:-HEAD} || exit 2
 trap 'git -C /repo worktree remove --force "$wt" 2>/dev/null; rm -rf "$wt"' EXIT
 cd "$wt" || exit 2
 if ! git apply "$patch"; then echo "patch does not apply"; exit 2; fi
